@@ -714,20 +714,22 @@ func String(v string) Value {
 	return Value{t: TypeString, value: stringT(v)}
 }
 
-func (s stringT) Get(a Value) (Value, bool) { return Int(int(s[a.Int()])), true }
+func (s stringT) Get(a Value) (Value, bool) { return Uint8(s[a.Int()]), true }
 func (s stringT) Set(k, v Value)            { panic("unsupported") }
 func (s stringT) Len() int                  { return len(s) }
 func (s stringT) Range() func() (Value, Value, bool) {
 	var r []rune
-	for _, v := range s {
+	var offsets []int
+	for i, v := range s {
 		r = append(r, v)
+		offsets = append(offsets, i)
 	}
 	n := 0
 	return func() (Value, Value, bool) {
 		if n >= len(r) {
 			return Nil(), Nil(), false
 		}
-		k, v := Int(n), r[n]
+		k, v := Int(offsets[n]), r[n]
 		n++
 		return k, Int32(v), true
 	}
